@@ -79,6 +79,7 @@ def scenarios(tier):
             L.append("delhook %s %s" % (fl, ep))
             L.append("notifyhook %s %s" % (fl, ep))
             L.append("delleak %s %s" % (fl, ep))
+            L.append("provleak %s %s" % (fl, ep))
             for who in ("provided", "required", "name"):
                 L.append("hashhook %s %s %s" % (fl, ep, who))
             if fl == "verifying":
